@@ -34,11 +34,11 @@ theorem indicesOf_narrow_ne {st : StructTable} {F : Nat} (hF : NarrowFix st F) (
     have : narrow st F ⟨b, m, a + 1⟩ (.obj kvs) = .null := by rw [hF]; simp [atBase, mapArr]
     rw [this] at h; simp [indicesOf] at h
 
-/-- what `runtimeMode = some false` says about the split bindings -/
-theorem runtimeMode_facts (st : StructTable) (self sib : RBMap) (ins : List Param) (c : Call)
-    (h : runtimeMode st self sib ins c = some false) :
+/-- what `runtimeMode = some mv` says about the split bindings -/
+theorem runtimeMode_facts (st : StructTable) (self sib : RBMap) (ins : List Param) (c : Call) (mv : Bool)
+    (h : runtimeMode st self sib ins c = some mv) :
     ∀ p ∈ ins, ∀ b, c.binds.find? (fun b => b.param == p.name) = some b → b.split = true →
-      isRuntimeSrc st self sib b.exp = true ∧ splitIsMap st self sib b.exp = false := by
+      isRuntimeSrc st self sib b.exp = true ∧ splitIsMap st self sib b.exp = mv := by
   unfold runtimeMode at h
   cases hsp : splitParam ins c with
   | none => simp [hsp] at h
@@ -245,18 +245,18 @@ theorem TreeHyp.guard {d : RExp} {ch : List STree}
 
 theorem TreeHyp.subR {c : String} {m : Bool} {path : List String} {cins : RBMap} {ok : Bool} {ch : List STree}
     (h : TreeHyp st F nm O ρ above dims f0 [.subR c m path cins ok ch]) :
-    ok = true ∧ m = false ∧ above.contains c = false ∧ ρ.idx c f0 ≠ [] ∧
+    ok = true ∧ above.contains c = false ∧ ρ.idx c f0 ≠ [] ∧
     (∀ kv ∈ cins, ∀ c' m' src, kv.2.exp = .split c' m' src → c' = c →
-      indicesOf (evalRT st F ρ f0 (liftSplitTy false kv.2.ty) src) = ρ.idx c f0) ∧
+      indicesOf (evalRT st F ρ f0 (liftSplitTy m kv.2.ty) src) = ρ.idx c f0) ∧
     IdxLocal ρ c (dims.map (·.1)) ∧
     ∀ ix ∈ ρ.idx c f0, TreeHyp st F nm O ρ (above ++ [c]) (dims ++ [(c, [])]) (fset f0 c ix) ch := by
   obtain ⟨h1, h2, h3, h4⟩ := h
   simp only [treeOkPList, treeOkP, Bool.and_true, Bool.and_eq_true, Bool.not_eq_true'] at h2
   simp only [idxOkTList, idxOkT, Bool.and_true, Bool.and_eq_true, List.all_eq_true, Bool.not_eq_true',
     List.isEmpty_eq_false_iff] at h3
-  obtain ⟨⟨⟨hok, hm⟩, habove⟩, hch⟩ := h2
+  obtain ⟨⟨hok, habove⟩, hch⟩ := h2
   obtain ⟨⟨hne, hsrc⟩, hidx⟩ := h3
-  refine ⟨hok, hm, habove, hne, ?_, ?_, ?_⟩
+  refine ⟨hok, habove, hne, ?_, ?_, ?_⟩
   · intro kv hkv c' m' src he hc
     have := hsrc kv hkv
     simp only [he, Bool.or_eq_true, bne_iff_ne, ne_eq, decide_eq_true_eq] at this
@@ -286,8 +286,8 @@ end treeHyp
 /-- a split binding of a map call in array mode, as an entry of the call's resolved inputs -/
 theorem cins_split_entry (st : StructTable) (self sib : RBMap) (ins : List Param) (c : Call) (p : Param)
     (b : Martian.Dataflow.Bind) (hp : p ∈ ins) (hfb : c.binds.find? (fun b => b.param == p.name) = some b)
-    (hs : b.split = true) (hm : splitIsMap st self sib b.exp = false) :
-    (p.name, (⟨.split c.id false (filterT st (liftSplitTy false p.ty) (resolveRefs self sib b.exp)), p.ty⟩ : RB))
+    (hs : b.split = true) (m : Bool) (hm : splitIsMap st self sib b.exp = m) :
+    (p.name, (⟨.split c.id m (filterT st (liftSplitTy m p.ty) (resolveRefs self sib b.exp)), p.ty⟩ : RB))
       ∈ resolveBindsT st self sib ins c := by
   simp only [resolveBindsT, List.mem_map]
   exact ⟨p, hp, by simp [hfb, hs, hm]⟩
@@ -308,6 +308,338 @@ theorem narrow_arrTy_indices {st : StructTable} {F : Nat} (hF : NarrowFix st F) 
     have : narrow st F ⟨b, m, a + 1⟩ (.obj kvs) = .null := by rw [hF]; simp [atBase, mapArr]
     rw [this] at h; simp [indicesOf] at h
 
+/-! ## typed-map mode and the mode-aware types of an environment -/
+
+theorem splitMode_eq_S (st : StructTable) (env : Env) (e : Exp) :
+    splitMode st env e = splitModeS st env.selfTy env.callTy e := by cases e <;> rfl
+
+theorem callMode_eq_S (st : StructTable) (env : Env) (c : Call) :
+    callMode st env c = callModeS st env.selfTy env.callTy c := by
+  unfold callMode callModeS
+  cases c.mapped <;> simp
+  cases firstSplit c <;> simp [splitMode_eq_S]
+
+theorem callTyS_env (st : StructTable) (env : Env) (c : Call) :
+    callTyS st env.selfTy (callTyOfB (typesOf env)) c = liftTy c.callee (callMode st env c) := by
+  rw [callMode_eq_S, callTy_typesOf]
+  rfl
+
+/-- a map call in TYPED-MAP mode without `disabled`: like `MappedOkT` at the typed-map collection
+types, and the element types have no typed map below (a typed map of typed maps is not a type) -/
+def MappedOkK (st : StructTable) (P : Program) (sT cT : String → Ty) (c : Call) : Prop :=
+  c.mapped = true ∧ c.disabled = none ∧ (∃ b ∈ c.binds, b.split = true) ∧
+  (∀ b ∈ c.binds, b.split = true →
+    ∃ p ∈ P.insOf c.callee, c.binds.find? (fun b' => b'.param == p.name) = some b) ∧
+  (∀ p ∈ P.insOf c.callee, ∀ b, c.binds.find? (fun b => b.param == p.name) = some b →
+    HasTy st sT cT (if b.split then liftSplitTy true p.ty else p.ty) b.exp) ∧
+  (∀ p ∈ P.insOf c.callee, ∀ b, c.binds.find? (fun b => b.param == p.name) = some b → b.split = true →
+    NoMapBelow st p.ty)
+
+def CallOkR (st : StructTable) (P : Program) (sT cT : String → Ty) (c : Call) : Prop :=
+  CallClean c ∧
+  ((CallOk st P.insOf sT cT c ∧ ∀ b ∈ c.binds, b.split = false) ∨ MappedOkT st P sT cT c ∨
+    DisabledOkE st P sT cT c ∨ MappedOkK st P sT cT c)
+
+def CallsOkR (st : StructTable) (P : Program) (sT : String → Ty) :
+    List (String × Ty) → List Call → Prop
+  | _, [] => True
+  | L, c :: cs =>
+    CallOkR st P sT (callTyOf L) c ∧ CallsOkR st P sT (L ++ [(c.id, callTyS st sT (callTyOfB L) c)]) cs
+
+def PipelineOkR (st : StructTable) (P : Program) (pins outs : List Param)
+    (calls : List Call) (ret : List (String × Exp)) : Prop :=
+  CallsOkR st P (selfTyOf pins) [] calls ∧
+  ∀ p ∈ outs, ∀ e, ret.lookup p.name = some e →
+    Exp.clean e = true ∧ HasTy st (selfTyOf pins) (callTyOf (callTypesS st (selfTyOf pins) [] calls)) p.ty e
+
+structure WellTypedR (P : Program) : Prop where
+  structs : StructsOk P.table
+  outsOf : ∀ name c, P.callables.lookup name = some c → P.table.lookup name = some c.outs
+  pipelines : ∀ name pins outs calls ret,
+    P.callables.lookup name = some (.pipeline pins outs calls ret) →
+      PipelineOkR P.table P pins outs calls ret
+  top : CallOk P.table P.insOf (selfTyOf []) (callTyOf []) P.top ∧ (∀ b ∈ P.top.binds, b.split = false) ∧
+    ∀ b ∈ P.top.binds, Exp.clean b.exp = true
+
+/-- the static types of the resolved environment are den's types (`L`: the types of the calls so far) -/
+def TyRelL (sT : String → Ty) (L : List (String × Ty)) (self sib : RBMap) : Prop :=
+  (∀ p, ((self.lookup p).map (·.ty)).getD badTy = sT p) ∧
+  (∀ c, (L.lookup c).isSome = (sib.lookup c).isSome) ∧
+  (∀ c, ((sib.lookup c).map (·.ty)).getD badTy = callTyOf L c)
+
+theorem tyRelL_step {sT : String → Ty} {L : List (String × Ty)} {self sib : RBMap} (h : TyRelL sT L self sib)
+    (id : String) (ty : Ty) (rb : RB) (hty : rb.ty = ty) :
+    TyRelL sT (L ++ [(id, ty)]) self (sib ++ [(id, rb)]) := by
+  obtain ⟨h1, h2, h3⟩ := h
+  refine ⟨h1, ?_, ?_⟩
+  · intro c
+    have := h2 c
+    simp only [List.lookup_append]
+    cases hl : L.lookup c with
+    | some x =>
+      cases hs : sib.lookup c with
+      | some y => simp
+      | none => rw [hl, hs] at this; simp at this
+    | none =>
+      cases hs : sib.lookup c with
+      | some y => rw [hl, hs] at this; simp at this
+      | none => simp only [Option.none_or, List.lookup_cons, List.lookup_nil]; cases (c == id) <;> simp
+  · intro c
+    have hd := h2 c
+    have ht := h3 c
+    simp only [callTyOf, List.lookup_append] at ht ⊢
+    cases hl : L.lookup c with
+    | some x =>
+      rw [hl] at hd ht
+      cases hs : sib.lookup c with
+      | none => simp [hs] at hd
+      | some y => rw [hs] at ht; simpa using ht
+    | none =>
+      rw [hl] at hd
+      cases hs : sib.lookup c with
+      | some y => simp [hs] at hd
+      | none =>
+        simp only [Option.none_or, List.lookup_cons, List.lookup_nil]
+        cases (c == id) with
+        | true => simp [hty]
+        | false => simp
+
+/-- the mode the static phase computes for a run-time sized source is the mode of its typing -/
+theorem splitIsMap_of_ty (st : StructTable) (sT : String → Ty) (L : List (String × Ty)) (self sib : RBMap)
+    (htr : TyRelL sT L self sib)
+    (e : Exp) (m : Bool) (pty : Ty) (hty : HasTy st sT (callTyOf L) (liftSplitTy m pty) e)
+    (hrs : isRuntimeSrc st self sib e = true) : splitIsMap st self sib e = m := by
+  have hdims : ∀ T : Ty, Sub st T (liftSplitTy m pty) → (T.arrDim == 0 && T.mapDim != 0) = m := by
+    intro T hs
+    obtain ⟨d1, d2⟩ := hs.dims
+    cases m with
+    | false => simp only [liftSplitTy, Bool.false_eq_true, if_false] at d1 d2; simp [d2]
+    | true => simp only [liftSplitTy, if_true] at d1 d2; simp [d1, d2]
+  simp only [isRuntimeSrc, Bool.and_eq_true] at hrs
+  unfold splitIsMap
+  cases e with
+  | lit j => simp [resolveRefs] at hrs
+  | arr xs => simp [resolveRefs] at hrs
+  | map kvs => simp [resolveRefs] at hrs
+  | struct kvs => simp [resolveRefs] at hrs
+  | self p path =>
+    simp only [HasTy] at hty
+    have hT : refTyOf st self sib (.self p path) = pathTy st (sT p) path := by
+      simp only [refTyOf, htr.1 p]
+    rw [hT]
+    cases hr : resolveRefs self sib (.self p path) <;> rw [hr] at hrs <;> simp at hrs <;> exact hdims _ hty.2
+  | ref c path =>
+    simp only [HasTy] at hty
+    have hT : refTyOf st self sib (.ref c path) = pathTy st (callTyOf L c) path := by
+      simp only [refTyOf, htr.2.2 c]
+    rw [hT]
+    cases hr : resolveRefs self sib (.ref c path) <;> rw [hr] at hrs <;> simp at hrs <;> exact hdims _ hty.2
+
+theorem narrow_mapTy_indices {st : StructTable} {F : Nat} (hF : NarrowFix st F) (b : String) (a : Nat) (v : J)
+    (h : indicesOf (narrow st F ⟨b, a + 1, 0⟩ v) ≠ []) :
+    ∃ kvs, v = .obj kvs ∧ indicesOf (narrow st F ⟨b, a + 1, 0⟩ v) = kvs.map fun kv => .k kv.1 := by
+  cases v with
+  | obj kvs => exact ⟨kvs, rfl, by rw [narrow_obj hF]; simp [indicesOf]⟩
+  | null => rw [narrow_null hF] at h; simp [indicesOf] at h
+  | dnull => rw [narrow_dnull hF] at h; simp [indicesOf] at h
+  | atom s => rw [narrow_mapTy_nonobj hF b a _ (by simp) (by simp)] at h; simp [indicesOf] at h
+  | arr xs => rw [narrow_mapTy_nonobj hF b a _ (by simp) (by simp)] at h; simp [indicesOf] at h
+
+theorem elemAt_erase_k (v : J) (s : String) : elemAt (J.erase v) (.k s) = J.erase (elemAt v (.k s)) := by
+  simp only [elemAt]
+  exact field_erase v s
+
+theorem mkArgs_erase_k (st : StructTable) (F : Nat) (env : Env) (ins : List Param) (c : Call) (s : String)
+    (hc : ∀ b ∈ c.binds, Exp.clean b.exp = true) :
+    J.erase (mkArgs st F (argVals st env ins c) (some (.k s)))
+      = mkArgs st F (argVals st (eraseEnv env) ins c) (some (.k s)) := by
+  rw [argVals_eraseEnv st env ins c hc]
+  simp only [mkArgs, erase_obj, List.map_map, J.obj.injEq]
+  apply List.map_congr_left
+  intro a _
+  simp only [Function.comp_apply, Prod.mk.injEq, true_and]
+  rw [narrow_erase]
+  cases a.split with
+  | false => rfl
+  | true => simp [elemAt_erase_k]
+
+section ctxK
+variable (st : StructTable) (hst : StructsOk st) (F : Nat) (hF : NarrowFix st F) (ρ : Store)
+include hst hF
+
+omit hst hF in
+/-- den iterates a typed-map mode map call in map mode -/
+theorem callMode_K (P : Program) (env : Env) (c : Call)
+    (hc : MappedOkK st P env.selfTy env.callTy c)
+    (hnl : ∀ b ∈ c.binds, b.split = true → ∀ j, b.exp ≠ .lit j) :
+    callMode st env c = .map := by
+  obtain ⟨hm, _, ⟨b0, hb0, hs0⟩, hpar, hty, _⟩ := hc
+  unfold callMode firstSplit
+  simp only [hm, if_true]
+  cases hf : c.binds.find? (·.split) with
+  | none =>
+    have := List.find?_eq_none.mp hf b0 hb0
+    simp [hs0] at this
+  | some b =>
+    have hbm := List.mem_of_find?_eq_some hf
+    have hbs : b.split = true := by simpa using List.find?_some hf
+    obtain ⟨p, hp, hfb⟩ := hpar b hbm hbs
+    have h2 := hty p hp b hfb
+    simp only [hbs, if_true] at h2
+    simp only
+    cases he : b.exp with
+    | lit j => exact absurd he (hnl b hbm hbs j)
+    | arr xs => rw [he] at h2; simp [liftSplitTy, HasTy] at h2
+    | map kvs => simp [splitMode]
+    | struct kvs => simp [splitMode]
+    | self q path =>
+      rw [he] at h2
+      simp only [HasTy] at h2
+      obtain ⟨d1, d2⟩ := h2.2.dims
+      simp only [liftSplitTy, if_true] at d1 d2
+      simp [splitMode, d1, d2]
+    | ref q path =>
+      rw [he] at h2
+      simp only [HasTy] at h2
+      obtain ⟨d1, d2⟩ := h2.2.dims
+      simp only [liftSplitTy, if_true] at d1 d2
+      simp [splitMode, d1, d2]
+
+/-- the bindings of fork `s` of a typed-map mode map call below a fork list -/
+theorem args_mappedK (P : Program) (forks : List (String × Idx)) (env : Env) (self sib : RBMap)
+    (hrel : EnvRel st F ρ (Agree forks) env self sib) (c : Call)
+    (hc : MappedOkK st P env.selfTy env.callTy c)
+    (hmode : ∀ p ∈ P.insOf c.callee, ∀ b, c.binds.find? (fun b => b.param == p.name) = some b → b.split = true →
+        splitIsMap st self sib b.exp = true)
+    (s : String) (f0 : ForkAssign) (hf0 : Agree forks f0) :
+    ArgsRelC st F ρ (forks ++ [(c.id, .k s)]) (P.insOf c.callee)
+      (mkArgs st F (argVals st env (P.insOf c.callee) c) (some (.k s)))
+      (resolveBindsT st self sib (P.insOf c.callee) c) := by
+  obtain ⟨_, _, _, _, hb, hnb⟩ := hc
+  refine ⟨fun q => match c.binds.find? (fun b => b.param == q.name) with
+    | some b =>
+      if b.split then .split c.id true (filterT st (liftSplitTy true q.ty) (resolveRefs self sib b.exp))
+      else filterT st q.ty (resolveRefs self sib b.exp)
+    | none => .lit .null, ?_, ?_, ?_⟩
+  · simp only [resolveBindsT]
+    apply List.map_congr_left
+    intro p hp
+    cases hfb : c.binds.find? (fun b => b.param == p.name) with
+    | none => rfl
+    | some b =>
+      cases hs : b.split with
+      | false => simp [hs]
+      | true => simp [hs, hmode p hp b hfb hs]
+  · intro f hf
+    obtain ⟨hfa, hfl⟩ := hf.sub
+    simp only at hfl
+    simp only [mkArgs, argVals, List.map_map, J.obj.injEq]
+    apply List.map_congr_left
+    intro p hp
+    simp only [Function.comp_apply]
+    cases hfb : c.binds.find? (fun b => b.param == p.name) with
+    | none => simp [narrow_null hF, evalRT]
+    | some b =>
+      simp only [Prod.mk.injEq, true_and]
+      have hty := hb p hp b hfb
+      cases hs : b.split with
+      | false =>
+        simp only [hs, Bool.false_eq_true, if_false] at hty ⊢
+        exact (eval_resolveExpT st hst F hF ρ _ env self sib hrel f hfa b.exp p.ty hty).1
+      | true =>
+        simp only [hs, if_true] at hty ⊢
+        have hm0 := (hnb p hp b hfb hs).mapDim
+        have key := (eval_resolveExpT st hst F hF ρ _ env self sib hrel f hfa b.exp _ hty).1
+        generalize p.ty = T at key hm0 ⊢
+        obtain ⟨pb, pm, pa⟩ := T
+        simp only at hm0
+        subst hm0
+        simp only [liftSplitTy, if_true, evalRT, hfl, Option.getD_some] at key ⊢
+        rw [← key]
+        exact elemMap_narrow hF pb pa _ (.k s)
+  · intro p hp
+    show HasTyR st p.ty (match c.binds.find? (fun b => b.param == p.name) with
+      | some b =>
+        if b.split then .split c.id true (filterT st (liftSplitTy true p.ty) (resolveRefs self sib b.exp))
+        else filterT st p.ty (resolveRefs self sib b.exp)
+      | none => .lit .null)
+    cases hfb : c.binds.find? (fun b => b.param == p.name) with
+    | none => exact HasTyR_null st _
+    | some b =>
+      have hty := hb p hp b hfb
+      cases hs : b.split with
+      | false =>
+        simp only [hs, Bool.false_eq_true, if_false] at hty ⊢
+        exact (eval_resolveExpT st hst F hF ρ _ env self sib hrel f0 hf0 b.exp p.ty hty).2
+      | true =>
+        simp only [hs, if_true] at hty ⊢
+        simp only [HasTyR]
+        exact ⟨hnb p hp b hfb hs, (eval_resolveExpT st hst F hF ρ _ env self sib hrel f0 hf0 b.exp _ hty).2⟩
+
+/-- what the static shape flag and the typing say about a typed-map mode map call instance -/
+theorem mapped_factsK (P : Program) (Fs : ForkAssign → Prop) (env : Env) (self sib : RBMap)
+    (hrel : EnvRel st F ρ Fs env self sib) (f0 : ForkAssign) (hf0 : Fs f0) (c : Call)
+    (hc : MappedOkK st P env.selfTy env.callTy c) (ixsP : Bool × List Idx)
+    (hss : splitsStaticT st self sib (P.insOf c.callee) c ixsP = true) :
+    ixsP.1 = true ∧
+      (∀ p ∈ P.insOf c.callee, ∀ b, c.binds.find? (fun b => b.param == p.name) = some b → b.split = true →
+        ∃ kvs, resolveRefs self sib b.exp = .map kvs ∧ ixsP.2 = kvs.map fun kv => .k kv.1) := by
+  obtain ⟨_, _, ⟨b0, hb0, hs0⟩, hpar, hty, _⟩ := hc
+  simp only [splitsStaticT, List.all_eq_true] at hss
+  have per : ∀ p ∈ P.insOf c.callee, ∀ b, c.binds.find? (fun b => b.param == p.name) = some b →
+      b.split = true →
+      ∃ kvs, resolveRefs self sib b.exp = .map kvs ∧ ixsP = (true, kvs.map fun kv => .k kv.1) := by
+    intro p hp b hb hs
+    have h1 := hss p hp
+    simp only [hb, hs, Bool.not_true, Bool.false_or, Bool.and_eq_true, beq_iff_eq] at h1
+    have h2 := hty p hp b hb
+    simp only [hs, if_true] at h2
+    have h3 := (eval_resolveRefs st hst F hF ρ Fs env self sib hrel f0 hf0 b.exp _ h2).2
+    have h4 := h1.1
+    rw [staticIndices_filterT] at h4
+    rw [splitIsMap_static st self sib b.exp _ _ h4] at h4
+    cases split_shape st true p.ty _ ixsP h3 h4 with
+    | inl h => exact absurd h.1 (by simp)
+    | inr h => exact h.2
+  obtain ⟨p0, hp0, hf0'⟩ := hpar b0 hb0 hs0
+  obtain ⟨kvs0, _, hi0⟩ := per p0 hp0 b0 hf0' hs0
+  refine ⟨by rw [hi0], ?_⟩
+  intro p hp b hb hs
+  obtain ⟨kvs, hr, hi⟩ := per p hp b hb hs
+  exact ⟨kvs, hr, by rw [hi]⟩
+
+theorem splitVals_indicesK (P : Program) (Fs : ForkAssign → Prop) (env : Env) (self sib : RBMap)
+    (hrel : EnvRel st F ρ Fs env self sib) (f0 : ForkAssign) (hf0 : Fs f0) (c : Call)
+    (hc : MappedOkK st P env.selfTy env.callTy c) (ixs : List Idx)
+    (hfacts : ∀ p ∈ P.insOf c.callee, ∀ b, c.binds.find? (fun b => b.param == p.name) = some b → b.split = true →
+        ∃ kvs, resolveRefs self sib b.exp = .map kvs ∧ ixs = kvs.map fun kv => .k kv.1) :
+    ∀ v ∈ splitVals st env c, indicesOf v = ixs := by
+  obtain ⟨_, hd, _, hpar, hty, hnb⟩ := hc
+  intro v hv
+  simp only [splitVals, hd, List.append_nil, List.mem_map, List.mem_filter] at hv
+  obtain ⟨b, ⟨hb, hs⟩, rfl⟩ := hv
+  obtain ⟨p, hp, hfb⟩ := hpar b hb hs
+  have h2 := hty p hp b hfb
+  simp only [hs, if_true] at h2
+  have hE := (eval_resolveRefs st hst F hF ρ Fs env self sib hrel f0 hf0 b.exp _ h2).1
+  obtain ⟨kvs, hr, hi⟩ := hfacts p hp b hfb hs
+  rw [hr] at hE
+  have hm0 := (hnb p hp b hfb hs).mapDim
+  generalize p.ty = T at hE hm0
+  obtain ⟨pb, pm, pa⟩ := T
+  simp only at hm0
+  subst hm0
+  have c2 : ((0 : Nat) == 0 && (pa + 1 != 0)) = true := by simp
+  simp only [liftSplitTy, if_true, evalRT, c2, Nat.add_sub_cancel] at hE
+  obtain ⟨kvs', hx, hk⟩ := narrow_obj_inv hF pb pa _ _ hE
+  rw [hx, hi]
+  simp only [indicesOf]
+  have e : ∀ (l : List (String × J)), (l.map fun kv => Idx.k kv.1) = (l.map (·.1)).map Idx.k := by intro l; simp
+  have e' : ∀ (l : List (String × RExp)), (l.map fun kv => Idx.k kv.1) = (l.map (·.1)).map Idx.k := by intro l; simp
+  rw [e, e', hk, evalRTFields_keys]
+
+end ctxK
+
 section callsR
 variable (st : StructTable) (hst : StructsOk st) (F : Nat) (hF : NarrowFix st F) (ρ : Store) (hρ : StoreExt ρ)
 include hst hF hρ
@@ -316,34 +648,36 @@ theorem refine_callsR (P : Program) (nm : List String → String) (O : Oracle) (
     (node : String → List String → RBMap → RB × List STree) (path : List String)
     (forks : List (String × Idx)) (dims : List (String × List Idx)) (self : RBMap) (sT : String → Ty)
     (hal : dims.map (·.1) = forks.map (·.1))
+    (hnodeTy : ∀ callee path cins, (node callee path cins).1.ty = ⟨callee, 0, 0⟩)
     (hrun : ∀ callee path forks' dims' args cins f0', dims'.map (·.1) = forks'.map (·.1) →
       ArgsRelC st F ρ forks' (P.insOf callee) (J.erase args) cins → Agree forks' f0' →
       TreeHyp st F nm O ρ (forks'.map (·.1)) dims' f0' (node callee path cins).2 →
       GoodE st F ρ forks' callee (run callee path forks' args) (node callee path cins)) :
     ∀ (cs : List Call) (env : Env) (sib : RBMap) (acc : List Inst) (sacc : List STree),
-      EnvRel st F ρ (Agree forks) (eraseEnv env) self sib → env.selfTy = sT → CallsOkE st P sT (typesOf env) cs →
+      EnvRel st F ρ (Agree forks) (eraseEnv env) self sib → env.selfTy = sT → CallsOkR st P sT (typesOf env) cs →
+      TyRelL sT (typesOf env) self sib →
       (∀ f, Agree forks f → acc.map eraseInst = instsTList st F ρ forks f sacc) →
       ∀ f0, Agree forks f0 →
       TreeHyp st F nm O ρ (forks.map (·.1)) dims f0 (staticCallsT st P.insOf node path self cs sib []).2 →
       EnvRel st F ρ (Agree forks) (eraseEnv (evalCalls st F P.insOf run path forks cs env acc).1) self
           (staticCallsT st P.insOf node path self cs sib sacc).1 ∧
       (evalCalls st F P.insOf run path forks cs env acc).1.selfTys = env.selfTys ∧
-      typesOf (evalCalls st F P.insOf run path forks cs env acc).1 = typesOf env ++ callTypesM cs ∧
+      typesOf (evalCalls st F P.insOf run path forks cs env acc).1 = typesOf env ++ callTypesS st sT (typesOf env) cs ∧
       (∀ f, Agree forks f → (evalCalls st F P.insOf run path forks cs env acc).2.map eraseInst
         = instsTList st F ρ forks f (staticCallsT st P.insOf node path self cs sib sacc).2) := by
   intro cs
   induction cs with
   | nil =>
-    intro env sib acc sacc hrel _ _ hacc _ _ _
-    simp only [evalCalls, staticCallsT, callTypesM, List.map_nil, List.append_nil]
+    intro env sib acc sacc hrel _ _ _ hacc _ _ _
+    simp only [evalCalls, staticCallsT, callTypesS, List.append_nil]
     exact ⟨hrel, trivial, trivial, hacc⟩
   | cons c cs ih =>
-    intro env sib acc sacc hrel hsT hok hacc f0 hf0 hT
-    simp only [CallsOkE] at hok
+    intro env sib acc sacc hrel hsT hok htr hacc f0 hf0 hT
+    simp only [CallsOkR] at hok
     obtain ⟨⟨hclean, hc⟩, hcs⟩ := hok
     have hsT' : (eraseEnv env).selfTy = env.selfTy := selfTy_eraseEnv env
     have hcT' : (eraseEnv env).callTy = env.callTy := callTy_eraseEnv env
-    rcases hc with hplain | hmapped | hdis
+    rcases hc with hplain | hmapped | hdis | hmapK
     · -- a plain call
       obtain ⟨hc, hns⟩ := hplain
       have hc' : CallOk st P.insOf (eraseEnv env).selfTy (eraseEnv env).callTy c := by
@@ -351,8 +685,9 @@ theorem refine_callsR (P : Program) (nm : List String → String) (O : Oracle) (
       have hargs := args_stepC st hst F hF ρ P.insOf forks (eraseEnv env) self sib hrel c hc' hns f0 hf0
       rw [← mkArgs_erase_none st F env _ c hclean.1] at hargs
       have hm : c.mapped = false := hc.1
+      have hrty0 := hnodeTy c.callee (path ++ [c.id]) (resolveBindsT st self sib (P.insOf c.callee) c)
       generalize hr : node c.callee (path ++ [c.id]) (resolveBindsT st self sib (P.insOf c.callee) c) = r
-        at hargs
+        at hargs hrty0
       have hsplitL : (staticCallsT st P.insOf node path self (c :: cs) sib []).2
           = r.2 ++ (staticCallsT st P.insOf node path self cs (sib ++ [(c.id, r.1)]) []).2 := by
         simp only [staticCallsT, hm, Bool.false_eq_true, if_false, hr, hc.2.1]
@@ -367,22 +702,26 @@ theorem refine_callsR (P : Program) (nm : List String → String) (O : Oracle) (
       simp only
       have hrel' := envRel_stepC st F ρ (Agree forks) (eraseEnv env) self sib hrel c.id ⟨c.callee, 0, 0⟩ _ _ g1 g2
       rw [← eraseEnv_append] at hrel'
-      have hty : callTyM c = ⟨c.callee, 0, 0⟩ := by simp [callTyM, hm]
+      have hty : callTyS st sT (callTyOfB (typesOf env)) c = ⟨c.callee, 0, 0⟩ := by
+        simp [callTyS, callModeS, hm, liftTy]
       have := ih _ _ (acc ++ (run c.callee (path ++ [c.id]) forks
           (mkArgs st F (argVals st env (P.insOf c.callee) c) none)).2) (sacc ++ r.2)
         hrel' hsT (by rw [← hty]; simpa [typesOf] using hcs)
+        (by have := tyRelL_step htr c.id _ r.1 hrty0; simpa [typesOf] using this)
         (fun f hf => by rw [List.map_append, hacc f hf, g3 f hf, instsTList_append]) f0 hf0 hT.right
       obtain ⟨r1, r2, r3, r4⟩ := this
       refine ⟨r1, r2, ?_, r4⟩
       rw [r3]
-      simp [typesOf, callTypesM, hty]
+      simp only [callTypesS, hty]
+      simp [typesOf]
     · -- an array-mode map call
       have hmapped' : MappedOkT st P (eraseEnv env).selfTy (eraseEnv env).callTy c := by
         rw [hsT', hcT', hsT, callTy_typesOf]; exact hmapped
       have hm : c.mapped = true := hmapped'.1
       have hd : c.disabled = none := hmapped'.2.1
       have hex := hmapped'.2.2.1
-      generalize hr : node c.callee (path ++ [c.id]) (resolveBindsT st self sib (P.insOf c.callee) c) = r
+      have hrty0 := hnodeTy c.callee (path ++ [c.id]) (resolveBindsT st self sib (P.insOf c.callee) c)
+      generalize hr : node c.callee (path ++ [c.id]) (resolveBindsT st self sib (P.insOf c.callee) c) = r at hrty0
       generalize hci : callIndicesT st self sib (P.insOf c.callee) c = ci at *
       generalize hrm : runtimeMode st self sib (P.insOf c.callee) c = rm at *
       cases hrt : (ci.isNone && rm.isSome) with
@@ -406,12 +745,20 @@ theorem refine_callsR (P : Program) (nm : List String → String) (O : Oracle) (
           rw [staticCallsT_acc]
           simp
         rw [hsplitL] at hT
-        obtain ⟨hokf, hmf, habove, hne, hsrc, hloc, hch⟩ := hT.left.subR
+        obtain ⟨hokf, habove, hne, hsrc, hloc, hch⟩ := hT.left.subR
         have hT2 := hT.right
-        rw [hmf] at hrmS hT2
+        have hmf : rm.getD false = false := by
+          have hfacts0 := runtimeMode_facts st self sib (P.insOf c.callee) c _ (hrm.trans hrmS)
+          have ⟨b0, hb0, hs0⟩ := hex
+          obtain ⟨p0, hp0, hfb0⟩ := hmapped.2.2.2.1 b0 hb0 hs0
+          have hty0 := hmapped.2.2.2.2 p0 hp0 b0 hfb0
+          simp only [hs0, if_true] at hty0
+          rw [← (hfacts0 p0 hp0 b0 hfb0 hs0).2]
+          exact splitIsMap_of_ty st sT (typesOf env) self sib htr b0.exp false p0.ty hty0 (hfacts0 p0 hp0 b0 hfb0 hs0).1
+        rw [hmf] at hrmS hT2 hsrc
         simp only [Bool.false_eq_true, if_false] at hT2
         simp only [Bool.and_eq_true] at hokf
-        have hfacts := runtimeMode_facts st self sib (P.insOf c.callee) c (hrm.trans hrmS)
+        have hfacts := runtimeMode_facts st self sib (P.insOf c.callee) c false (hrm.trans hrmS)
         have hmodeF : ∀ p ∈ P.insOf c.callee, ∀ b, c.binds.find? (fun b => b.param == p.name) = some b →
             b.split = true → splitIsMap st self sib b.exp = false := fun p hp b hb hs => (hfacts p hp b hb hs).2
         rw [hal] at hloc
@@ -422,7 +769,7 @@ theorem refine_callsR (P : Program) (nm : List String → String) (O : Oracle) (
         have hsrcV : ∀ p ∈ P.insOf c.callee, ∀ b, c.binds.find? (fun b => b.param == p.name) = some b →
             b.split = true → ∃ xs, J.erase (eval st env b.exp) = .arr xs ∧ ixs = (List.range xs.length).map .i := by
           intro p hp b hfb hs
-          have hmem := cins_split_entry st self sib (P.insOf c.callee) c p b hp hfb hs (hmodeF p hp b hfb hs)
+          have hmem := cins_split_entry st self sib (P.insOf c.callee) c p b hp hfb hs false (hmodeF p hp b hfb hs)
           have h1 := hsrc _ hmem c.id false _ rfl rfl
           have hty := hmapped'.2.2.2.2 p hp b hfb
           simp only [hs, if_true] at hty
@@ -496,7 +843,8 @@ theorem refine_callsR (P : Program) (nm : List String → String) (O : Oracle) (
         have hrel' := envRel_stepC st F ρ (Agree forks) (eraseEnv env) self sib hrel c.id ⟨c.callee, 0, 1⟩ _
           ⟨.merge c.id false r.1.exp, ⟨c.callee, 0, 1⟩⟩ hv htyR
         rw [← eraseEnv_append] at hrel'
-        have hty : callTyM c = ⟨c.callee, 0, 1⟩ := by simp [callTyM, hm]
+        have hty : callTyS st sT (callTyOfB (typesOf env)) c = ⟨c.callee, 0, 1⟩ := by
+          rw [← hsT, callTyS_env, hmode]; rfl
         have hinst : ∀ f, Agree forks f → (ixs.flatMap fun ix =>
               (run c.callee (path ++ [c.id]) (forks ++ [(c.id, ix)])
                 (mkArgs st F (argVals st env (P.insOf c.callee) c) (some ix))).2).map eraseInst
@@ -517,17 +865,20 @@ theorem refine_callsR (P : Program) (nm : List String → String) (O : Oracle) (
           (sacc ++ [STree.subR c.id false (path ++ [c.id]) (resolveBindsT st self sib (P.insOf c.callee) c)
                 (noSplitOf c.id r.1.exp && noMergeOf c.id r.1.exp) r.2])
           hrel' hsT (by rw [← hty]; simpa [typesOf] using hcs)
+          (by have := tyRelL_step htr c.id ⟨c.callee, 0, 1⟩ ⟨.merge c.id false r.1.exp, ⟨c.callee, 0, 1⟩⟩ rfl
+              simpa [typesOf] using this)
           (fun f hf => by rw [List.map_append, hacc f hf, hinst f hf, instsTList_append]) f0 hf0 hT2
         obtain ⟨r1, r2, r3, r4⟩ := this
         refine ⟨r1, r2, ?_, r4⟩
         rw [r3]
-        simp [typesOf, callTypesM, hty]
+        simp only [callTypesS, hty]
+        simp [typesOf]
       | false =>
         have hsplitL : (staticCallsT st P.insOf node path self (c :: cs) sib []).2
             = [STree.sub c.id (ci.getD (false, [])).1 (ci.getD (false, [])).2
                 (ci.isSome && !(ci.getD (false, [])).2.isEmpty &&
                   splitsStaticT st self sib (P.insOf c.callee) c (ci.getD (false, [])) && c.disabled.isNone &&
-                  noMergeOf c.id r.1.exp) r.2] ++
+                  pushOk c.id (ci.getD (false, [])).1 r.1.exp) r.2] ++
               (staticCallsT st P.insOf node path self cs
                 (sib ++ [(c.id, unrolledOutputsT c (ci.getD (false, [])) r.1.exp)]) []).2 := by
           simp only [staticCallsT, hm, if_true, hr, hci, hrm, hrt, Bool.false_eq_true, if_false]
@@ -540,6 +891,7 @@ theorem refine_callsR (P : Program) (nm : List String → String) (O : Oracle) (
         obtain ⟨⟨⟨⟨hsome, hnonempty⟩, hss⟩, _⟩, hnmg⟩ := hokf
         obtain ⟨hix1, hfacts⟩ := mapped_factsT st hst F hF ρ P (Agree forks) (eraseEnv env) self sib hrel f0 hf0 c
           hmapped' (ci.getD (false, [])) hss
+        rw [hix1] at hnmg
         generalize hixs : (ci.getD (false, [])).2 = ixs at *
         have hne : ixs ≠ [] := by
           intro e; rw [e] at hnonempty; simp at hnonempty
@@ -599,24 +951,25 @@ theorem refine_callsR (P : Program) (nm : List String → String) (O : Oracle) (
           intro ix hix
           obtain ⟨k, rfl⟩ := hallI ix hix
           simp only [Function.comp_apply]
-          rw [(pushFork_evalRT st hst F ρ hρ c.id k r.1.exp _ f (hchild _ hix).2.1 hnmg).1]
+          rw [(pushFork_evalRT st hst F ρ hρ c.id (.i k) false trivial r.1.exp _ f (hchild _ hix).2.1 hnmg).1]
           exact (hchild _ hix).1 _ (hf.fset c.id (.i k) habove)
         have htyR : HasTyR st ⟨c.callee, 0, 1⟩ (.arr (ixs.map fun ix => pushFork c.id ix r.1.exp)) := by
           simp only [HasTyR]
           refine ⟨by simp, HasTyRList_map st _ _ _ ?_⟩
           intro ix hix
           obtain ⟨k, rfl⟩ := hallI ix hix
-          exact (pushFork_evalRT st hst F ρ hρ c.id k r.1.exp _ [] (hchild _ hix).2.1 hnmg).2
+          exact (pushFork_evalRT st hst F ρ hρ c.id (.i k) false trivial r.1.exp _ [] (hchild _ hix).2.1 hnmg).2
         have hrel' := envRel_stepC st F ρ (Agree forks) (eraseEnv env) self sib hrel c.id ⟨c.callee, 0, 1⟩ _
           ⟨.arr (ixs.map fun ix => pushFork c.id ix r.1.exp), ⟨c.callee, 0, 1⟩⟩ hv htyR
         rw [← eraseEnv_append] at hrel'
-        have hty : callTyM c = ⟨c.callee, 0, 1⟩ := by simp [callTyM, hm]
+        have hty : callTyS st sT (callTyOfB (typesOf env)) c = ⟨c.callee, 0, 1⟩ := by
+          rw [← hsT, callTyS_env, hmode]; rfl
         have hinst : ∀ f, Agree forks f → (ixs.flatMap fun ix =>
               (run c.callee (path ++ [c.id]) (forks ++ [(c.id, ix)])
                 (mkArgs st F (argVals st env (P.insOf c.callee) c) (some ix))).2).map eraseInst
             = instsTList st F ρ forks f [STree.sub c.id false ixs
                 (ci.isSome && !ixs.isEmpty && splitsStaticT st self sib (P.insOf c.callee) c (false, ixs) &&
-                  c.disabled.isNone && noMergeOf c.id r.1.exp) r.2] := by
+                  c.disabled.isNone && pushOk c.id false r.1.exp) r.2] := by
           intro f hf
           simp only [instsTList, instsT, List.append_nil, List.map_flatMap]
           apply flatMap_congr_mem
@@ -628,14 +981,18 @@ theorem refine_callsR (P : Program) (nm : List String → String) (O : Oracle) (
                 (mkArgs st F (argVals st env (P.insOf c.callee) c) (some ix))).2))
           (sacc ++ [STree.sub c.id false ixs
                 (ci.isSome && !ixs.isEmpty && splitsStaticT st self sib (P.insOf c.callee) c (false, ixs) &&
-                  c.disabled.isNone && noMergeOf c.id r.1.exp) r.2])
+                  c.disabled.isNone && pushOk c.id false r.1.exp) r.2])
           hrel' hsT (by rw [← hty]; simpa [typesOf] using hcs)
+          (by have := tyRelL_step htr c.id ⟨c.callee, 0, 1⟩
+                ⟨.arr (ixs.map fun ix => pushFork c.id ix r.1.exp), ⟨c.callee, 0, 1⟩⟩ rfl
+              simpa [typesOf] using this)
           (fun f hf => by rw [List.map_append, hacc f hf, hinst f hf, instsTList_append]) f0 hf0
           (by rw [hixsP, hout] at hT2; exact hT2)
         obtain ⟨r1, r2, r3, r4⟩ := this
         refine ⟨r1, r2, ?_, r4⟩
         rw [r3]
-        simp [typesOf, callTypesM, hty]
+        simp only [callTypesS, hty]
+        simp [typesOf]
     · -- a plain call with a run-time `disabled` control
       obtain ⟨hm, ⟨e, hd, htyd⟩, hns, hb⟩ := hdis
       have hcE : Exp.clean e = true := hclean.2 _ hd
@@ -659,8 +1016,9 @@ theorem refine_callsR (P : Program) (nm : List String → String) (O : Oracle) (
         have h1 := (eval_resolveRefs st hst F hF ρ (Agree forks) (eraseEnv env) self sib hrel f hf e _ htyd').1
         rw [← h1, isTrue_narrow0 hF, eval_eraseEnv st env e hcE, isTrue_erase]
       have htyctl := (eval_resolveRefs st hst F hF ρ (Agree forks) (eraseEnv env) self sib hrel f0 hf0 e _ htyd').2
+      have hrty0 := hnodeTy c.callee (path ++ [c.id]) (resolveBindsT st self sib (P.insOf c.callee) c)
       generalize hr : node c.callee (path ++ [c.id]) (resolveBindsT st self sib (P.insOf c.callee) c) = r
-        at hargs
+        at hargs hrty0
       generalize hdr : resolveRefs self sib e = dR at hctl htyctl
       have hdlt : evalCall st F P.insOf run path forks env c =
           if Martian.Dataflow.isTrue (eval st env e) then (⟨c.callee, 0, 0⟩, .dnull, [])
@@ -668,7 +1026,8 @@ theorem refine_callsR (P : Program) (nm : List String → String) (O : Oracle) (
             (run c.callee (path ++ [c.id]) forks (mkArgs st F (argVals st env (P.insOf c.callee) c) none)).1,
             (run c.callee (path ++ [c.id]) forks (mkArgs st F (argVals st env (P.insOf c.callee) c) none)).2) :=
         evalCall_disabled st F P.insOf run path forks env c e hm hd
-      have hty : callTyM c = ⟨c.callee, 0, 0⟩ := by simp [callTyM, hm]
+      have hty : callTyS st sT (callTyOfB (typesOf env)) c = ⟨c.callee, 0, 0⟩ := by
+        simp [callTyS, callModeS, hm, liftTy]
       by_cases hfalse : dR = .lit (.atom "false")
       · -- statically false: an ordinary call
         have hnot : Martian.Dataflow.isTrue (eval st env e) = false := by
@@ -690,11 +1049,13 @@ theorem refine_callsR (P : Program) (nm : List String → String) (O : Oracle) (
         have := ih _ _ (acc ++ (run c.callee (path ++ [c.id]) forks
             (mkArgs st F (argVals st env (P.insOf c.callee) c) none)).2) (sacc ++ r.2)
           hrel' hsT (by rw [← hty]; simpa [typesOf] using hcs)
+          (by have := tyRelL_step htr c.id _ r.1 hrty0; simpa [typesOf] using this)
           (fun f hf => by rw [List.map_append, hacc f hf, g3 f hf, instsTList_append]) f0 hf0 hT.right
         obtain ⟨r1, r2, r3, r4⟩ := this
         refine ⟨r1, r2, ?_, r4⟩
         rw [r3]
-        simp [typesOf, callTypesM, hty]
+        simp only [callTypesS, hty]
+        simp [typesOf]
       · -- a guard
         have hsplitL : (staticCallsT st P.insOf node path self (c :: cs) sib []).2
             = [STree.guard dR r.2] ++
@@ -756,19 +1117,327 @@ theorem refine_callsR (P : Program) (nm : List String → String) (O : Oracle) (
         rw [← eraseEnv_append] at hrel'
         have := ih _ _ (acc ++ X.2.2) (sacc ++ [STree.guard dR r.2])
           hrel' hsT (by rw [← hty]; simpa [typesOf] using hcs)
+          (by have := tyRelL_step htr c.id _ ⟨mkDisabled dR r.1.exp, r.1.ty⟩ hrty0; simpa [typesOf] using this)
           (fun f hf => by rw [List.map_append, hacc f hf, hinst f hf, instsTList_append]) f0 hf0 hT.right
         obtain ⟨r1, r2, r3, r4⟩ := this
         refine ⟨r1, r2, ?_, r4⟩
         rw [r3]
-        simp [typesOf, callTypesM, hty]
+        simp only [callTypesS, hty]
+        simp [typesOf]
 
+    · -- a typed-map mode map call
+      have hmapK' : MappedOkK st P (eraseEnv env).selfTy (eraseEnv env).callTy c := by
+        rw [hsT', hcT', hsT, callTy_typesOf]; exact hmapK
+      have hm : c.mapped = true := hmapK'.1
+      have hd : c.disabled = none := hmapK'.2.1
+      have hex := hmapK'.2.2.1
+      have hrty0 := hnodeTy c.callee (path ++ [c.id]) (resolveBindsT st self sib (P.insOf c.callee) c)
+      generalize hr : node c.callee (path ++ [c.id]) (resolveBindsT st self sib (P.insOf c.callee) c) = r at hrty0
+      generalize hci : callIndicesT st self sib (P.insOf c.callee) c = ci at *
+      generalize hrm : runtimeMode st self sib (P.insOf c.callee) c = rm at *
+      cases hrt : (ci.isNone && rm.isSome) with
+      | true =>
+        -- of run-time size
+        have hcnone : ci = none := by
+          cases ci with
+          | none => rfl
+          | some x => simp at hrt
+        have hrmS : rm = some (rm.getD false) := by
+          cases rm with
+          | none => simp at hrt
+          | some b => rfl
+        have hsplitL : (staticCallsT st P.insOf node path self (c :: cs) sib []).2
+            = [STree.subR c.id (rm.getD false) (path ++ [c.id]) (resolveBindsT st self sib (P.insOf c.callee) c)
+                (noSplitOf c.id r.1.exp && noMergeOf c.id r.1.exp) r.2] ++
+              (staticCallsT st P.insOf node path self cs
+                (sib ++ [(c.id, ⟨.merge c.id (rm.getD false) r.1.exp,
+                  if rm.getD false then ⟨c.callee, 1, 0⟩ else ⟨c.callee, 0, 1⟩⟩)]) []).2 := by
+          simp only [staticCallsT, hm, if_true, hr, hci, hrm, hrt]
+          rw [staticCallsT_acc]
+          simp
+        rw [hsplitL] at hT
+        obtain ⟨hokf, habove, hne, hsrc, hloc, hch⟩ := hT.left.subR
+        have hT2 := hT.right
+        have hmt : rm.getD false = true := by
+          have hfacts0 := runtimeMode_facts st self sib (P.insOf c.callee) c _ (hrm.trans hrmS)
+          have ⟨b0, hb0, hs0⟩ := hex
+          obtain ⟨p0, hp0, hfb0⟩ := hmapK.2.2.2.1 b0 hb0 hs0
+          have hty0 := hmapK.2.2.2.2.1 p0 hp0 b0 hfb0
+          simp only [hs0, if_true] at hty0
+          rw [← (hfacts0 p0 hp0 b0 hfb0 hs0).2]
+          exact splitIsMap_of_ty st sT (typesOf env) self sib htr b0.exp true p0.ty hty0 (hfacts0 p0 hp0 b0 hfb0 hs0).1
+        rw [hmt] at hrmS hT2 hsrc
+        simp only [if_true] at hT2
+        simp only [Bool.and_eq_true] at hokf
+        have hfacts := runtimeMode_facts st self sib (P.insOf c.callee) c true (hrm.trans hrmS)
+        have hmodeF : ∀ p ∈ P.insOf c.callee, ∀ b, c.binds.find? (fun b => b.param == p.name) = some b →
+            b.split = true → splitIsMap st self sib b.exp = true := fun p hp b hb hs => (hfacts p hp b hb hs).2
+        rw [hal] at hloc
+        generalize hixs : ρ.idx c.id f0 = ixs at *
+        have hidxA : ∀ f, Agree forks f → ρ.idx c.id f = ixs := fun f hf => by
+          rw [← hixs]; exact hloc.agree hf hf0
+        -- every split source is a typed map with these keys
+        have hsrcV : ∀ p ∈ P.insOf c.callee, ∀ b, c.binds.find? (fun b => b.param == p.name) = some b →
+            b.split = true → ∃ kvs, J.erase (eval st env b.exp) = .obj kvs ∧ ixs = kvs.map fun kv => .k kv.1 := by
+          intro p hp b hfb hs
+          have hmem := cins_split_entry st self sib (P.insOf c.callee) c p b hp hfb hs true (hmodeF p hp b hfb hs)
+          have h1 := hsrc _ hmem c.id true _ rfl rfl
+          have hty := hmapK'.2.2.2.2.1 p hp b hfb
+          simp only [hs, if_true] at hty
+          have hE := (eval_resolveExpT st hst F hF ρ _ (eraseEnv env) self sib hrel f0 hf0 b.exp _ hty).1
+          have hm0 := (hmapK'.2.2.2.2.2 p hp b hfb hs).mapDim
+          simp only at h1
+          rw [← hE, eval_eraseEnv st env b.exp (hclean.1 b (List.mem_of_find?_eq_some hfb))] at h1
+          generalize p.ty = T at h1 hm0
+          obtain ⟨pb, pm, pa⟩ := T
+          simp only at hm0
+          subst hm0
+          simp only [liftSplitTy, if_true] at h1
+          obtain ⟨kvs, hx, hi⟩ := narrow_mapTy_indices hF pb pa _ (by rw [h1]; exact hne)
+          exact ⟨kvs, hx, by rw [← h1, hi]⟩
+        have hallK : ∀ ix ∈ ixs, ∃ s, ix = Idx.k s := by
+          have ⟨b0, hb0, hs0⟩ := hex
+          obtain ⟨p0, hp0, hfb0⟩ := hmapK'.2.2.2.1 b0 hb0 hs0
+          obtain ⟨kvs, _, hi⟩ := hsrcV p0 hp0 b0 hfb0 hs0
+          intro ix hix
+          rw [hi] at hix
+          simp only [List.mem_map] at hix
+          obtain ⟨kv, _, rfl⟩ := hix
+          exact ⟨kv.1, rfl⟩
+        have hidx : ∀ v ∈ splitVals st env c, indicesOf v = ixs := by
+          intro v hv
+          simp only [splitVals, hd, List.append_nil, List.mem_map, List.mem_filter] at hv
+          obtain ⟨b, ⟨hb, hs⟩, rfl⟩ := hv
+          obtain ⟨p, hp, hfb⟩ := hmapK'.2.2.2.1 b hb hs
+          obtain ⟨kvs, hx, hi⟩ := hsrcV p hp b hfb hs
+          rw [← indicesOf_erase, hx, hi]
+          rfl
+        have hmode : callMode st env c = .map := by
+          rw [← callMode_eraseEnv]
+          apply callMode_K st P (eraseEnv env) c hmapK'
+          intro b hb hs j hj
+          obtain ⟨p, hp, hfb⟩ := hmapK'.2.2.2.1 b hb hs
+          have := (hfacts p hp b hfb hs).1
+          rw [hj, isRuntimeSrc_not_lit] at this
+          cases this
+        have hchild : ∀ ix ∈ ixs, GoodE st F ρ (forks ++ [(c.id, ix)]) c.callee
+            (run c.callee (path ++ [c.id]) (forks ++ [(c.id, ix)])
+              (mkArgs st F (argVals st env (P.insOf c.callee) c) (some ix))) r := by
+          intro ix hix
+          obtain ⟨s, rfl⟩ := hallK ix hix
+          have ha := args_mappedK st hst F hF ρ P forks (eraseEnv env) self sib hrel c hmapK' hmodeF s f0 hf0
+          rw [← mkArgs_erase_k st F env _ c s hclean.1] at ha
+          have hTc := hch (.k s) hix
+          have e1 : (forks ++ [(c.id, Idx.k s)]).map (·.1) = forks.map (·.1) ++ [c.id] := by simp
+          have := hrun c.callee (path ++ [c.id]) (forks ++ [(c.id, .k s)]) (dims ++ [(c.id, [])]) _ _
+            (fset f0 c.id (.k s)) (by simp [hal]) ha (hf0.fset c.id (.k s) habove)
+            (by rw [hr, e1]; exact hTc)
+          rw [hr] at this
+          exact this
+        obtain ⟨ix0, hix0⟩ : ∃ ix0, ix0 ∈ ixs := by
+          cases ixs with
+          | nil => exact absurd rfl hne
+          | cons a l => exact ⟨a, by simp⟩
+        simp only [evalCalls, staticCallsT, hm, if_true, hr, hci, hrm, hrt, hmt]
+        rw [evalCall_mappedC st F P.insOf run path forks env c .map ixs hm hd hex hidx hne hmode]
+        simp only
+        have hv : ∀ f, Agree forks f → J.erase (collect Mode.map ixs (ixs.map fun ix =>
+              (run c.callee (path ++ [c.id]) (forks ++ [(c.id, ix)])
+                (mkArgs st F (argVals st env (P.insOf c.callee) c) (some ix))).1))
+            = evalRT st F ρ f ⟨c.callee, 1, 0⟩ (.merge c.id true r.1.exp) := by
+          intro f hf
+          simp only [collect, zip_map_self, erase_obj, evalRT, hidxA f hf, List.map_map, J.obj.injEq]
+          apply List.map_congr_left
+          intro ix hix
+          simp only [Function.comp_apply, Prod.mk.injEq, true_and]
+          exact (hchild _ hix).1 _ (hf.fset c.id ix habove)
+        have htyR : HasTyR st ⟨c.callee, 1, 0⟩ (.merge c.id true r.1.exp) := by
+          simp only [HasTyR]
+          exact ⟨trivial, by simp, hokf.1, (hchild ix0 hix0).2.1⟩
+        have hrel' := envRel_stepC st F ρ (Agree forks) (eraseEnv env) self sib hrel c.id ⟨c.callee, 1, 0⟩ _
+          ⟨.merge c.id true r.1.exp, ⟨c.callee, 1, 0⟩⟩ hv htyR
+        rw [← eraseEnv_append] at hrel'
+        have hty : callTyS st sT (callTyOfB (typesOf env)) c = ⟨c.callee, 1, 0⟩ := by
+          rw [← hsT, callTyS_env, hmode]; rfl
+        have hinst : ∀ f, Agree forks f → (ixs.flatMap fun ix =>
+              (run c.callee (path ++ [c.id]) (forks ++ [(c.id, ix)])
+                (mkArgs st F (argVals st env (P.insOf c.callee) c) (some ix))).2).map eraseInst
+            = instsTList st F ρ forks f [STree.subR c.id true (path ++ [c.id])
+                (resolveBindsT st self sib (P.insOf c.callee) c)
+                (noSplitOf c.id r.1.exp && noMergeOf c.id r.1.exp) r.2] := by
+          intro f hf
+          have hne' : ixs.isEmpty = false := by cases ixs <;> simp_all
+          simp only [instsTList, instsT, List.append_nil, List.map_flatMap, hidxA f hf, hne', Bool.false_eq_true,
+            if_false]
+          apply flatMap_congr_mem
+          intro ix hix
+          exact (hchild ix hix).2.2 _ (hf.fset c.id ix habove)
+        simp only [liftTy]
+        have := ih _ _ (acc ++ (ixs.flatMap fun ix =>
+              (run c.callee (path ++ [c.id]) (forks ++ [(c.id, ix)])
+                (mkArgs st F (argVals st env (P.insOf c.callee) c) (some ix))).2))
+          (sacc ++ [STree.subR c.id true (path ++ [c.id]) (resolveBindsT st self sib (P.insOf c.callee) c)
+                (noSplitOf c.id r.1.exp && noMergeOf c.id r.1.exp) r.2])
+          hrel' hsT (by rw [← hty]; simpa [typesOf] using hcs)
+          (by have := tyRelL_step htr c.id ⟨c.callee, 1, 0⟩ ⟨.merge c.id true r.1.exp, ⟨c.callee, 1, 0⟩⟩ rfl
+              simpa [typesOf] using this)
+          (fun f hf => by rw [List.map_append, hacc f hf, hinst f hf, instsTList_append]) f0 hf0 hT2
+        obtain ⟨r1, r2, r3, r4⟩ := this
+        refine ⟨r1, r2, ?_, r4⟩
+        rw [r3]
+        simp only [callTypesS, hty]
+        simp [typesOf]
+      | false =>
+        have hsplitL : (staticCallsT st P.insOf node path self (c :: cs) sib []).2
+            = [STree.sub c.id (ci.getD (false, [])).1 (ci.getD (false, [])).2
+                (ci.isSome && !(ci.getD (false, [])).2.isEmpty &&
+                  splitsStaticT st self sib (P.insOf c.callee) c (ci.getD (false, [])) && c.disabled.isNone &&
+                  pushOk c.id (ci.getD (false, [])).1 r.1.exp) r.2] ++
+              (staticCallsT st P.insOf node path self cs
+                (sib ++ [(c.id, unrolledOutputsT c (ci.getD (false, [])) r.1.exp)]) []).2 := by
+          simp only [staticCallsT, hm, if_true, hr, hci, hrm, hrt, Bool.false_eq_true, if_false]
+          rw [staticCallsT_acc]
+          simp
+        rw [hsplitL] at hT
+        obtain ⟨hokf, habove, hch⟩ := hT.left.sub
+        have hT2 := hT.right
+        simp only [Bool.and_eq_true, Bool.not_eq_true'] at hokf
+        obtain ⟨⟨⟨⟨hsome, hnonempty⟩, hss⟩, _⟩, hnmg⟩ := hokf
+        obtain ⟨hix1, hfacts⟩ := mapped_factsK st hst F hF ρ P (Agree forks) (eraseEnv env) self sib hrel f0 hf0 c
+          hmapK' (ci.getD (false, [])) hss
+        rw [hix1] at hnmg
+        generalize hixs : (ci.getD (false, [])).2 = ixs at *
+        have hne : ixs ≠ [] := by
+          intro e; rw [e] at hnonempty; simp at hnonempty
+        have hixsP : ci.getD (false, []) = (true, ixs) := Prod.ext hix1 hixs
+        have hallK : ∀ ix ∈ ixs, ∃ s, ix = Idx.k s := by
+          have ⟨b0, hb0, hs0⟩ := hex
+          obtain ⟨p0, hp0, hfb0⟩ := hmapK'.2.2.2.1 b0 hb0 hs0
+          obtain ⟨kvs, _, hi⟩ := hfacts p0 hp0 b0 hfb0 hs0
+          intro ix hix
+          rw [hi] at hix
+          simp only [List.mem_map] at hix
+          obtain ⟨kv, _, rfl⟩ := hix
+          exact ⟨kv.1, rfl⟩
+        have hmodeF : ∀ p ∈ P.insOf c.callee, ∀ b, c.binds.find? (fun b => b.param == p.name) = some b →
+            b.split = true → splitIsMap st self sib b.exp = true := by
+          intro p hp b hb hs
+          obtain ⟨kvs, hr', _⟩ := hfacts p hp b hb hs
+          simp [splitIsMap, hr']
+        have hidx' := splitVals_indicesK st hst F hF ρ P (Agree forks) (eraseEnv env) self sib hrel f0 hf0 c
+          hmapK' ixs hfacts
+        have hidx : ∀ v ∈ splitVals st env c, indicesOf v = ixs := by
+          intro v hv
+          rw [← indicesOf_erase]
+          apply hidx'
+          rw [splitVals_eraseEnv st env c hclean]
+          exact List.mem_map_of_mem hv
+        have hmode : callMode st env c = .map := by
+          rw [← callMode_eraseEnv]
+          apply callMode_K st P (eraseEnv env) c hmapK'
+          intro b hb hs j hj
+          obtain ⟨p, hp, hfb⟩ := hmapK'.2.2.2.1 b hb hs
+          obtain ⟨kvs, hr', _⟩ := hfacts p hp b hfb hs
+          rw [hj] at hr'
+          simp [resolveRefs] at hr'
+        have hchild : ∀ ix ∈ ixs, GoodE st F ρ (forks ++ [(c.id, ix)]) c.callee
+            (run c.callee (path ++ [c.id]) (forks ++ [(c.id, ix)])
+              (mkArgs st F (argVals st env (P.insOf c.callee) c) (some ix))) r := by
+          intro ix hix
+          obtain ⟨s, rfl⟩ := hallK ix hix
+          have ha := args_mappedK st hst F hF ρ P forks (eraseEnv env) self sib hrel c hmapK' hmodeF s f0 hf0
+          rw [← mkArgs_erase_k st F env _ c s hclean.1] at ha
+          have hTc := hch (.k s) hix
+          have e1 : (forks ++ [(c.id, Idx.k s)]).map (·.1) = forks.map (·.1) ++ [c.id] := by simp
+          have := hrun c.callee (path ++ [c.id]) (forks ++ [(c.id, .k s)]) (dims ++ [(c.id, ixs)]) _ _
+            (fset f0 c.id (.k s)) (by simp [hal]) ha (hf0.fset c.id (.k s) habove)
+            (by rw [hr, e1]; exact hTc)
+          rw [hr] at this
+          exact this
+        obtain ⟨ix0, hix0⟩ : ∃ ix0, ix0 ∈ ixs := by
+          cases ixs with
+          | nil => exact absurd rfl hne
+          | cons a l => exact ⟨a, by simp⟩
+        simp only [evalCalls, staticCallsT, hm, if_true, hr, hci, hrm, hixsP, hrt, Bool.false_eq_true, if_false]
+        rw [evalCall_mappedC st F P.insOf run path forks env c .map ixs hm hd hex hidx hne hmode]
+        simp only
+        have hout : unrolledOutputsT c (true, ixs) r.1.exp
+            = ⟨.map (ixs.map fun ix => (ix.keyText, pushFork c.id ix r.1.exp)), ⟨c.callee, 1, 0⟩⟩ := by
+          simp [unrolledOutputsT]
+        rw [hout]
+        have c1 : ((0 : Nat) == 0 && ((1 : Nat) != 0)) = true := by decide
+        have hv : ∀ f, Agree forks f → J.erase (collect Mode.map ixs (ixs.map fun ix =>
+              (run c.callee (path ++ [c.id]) (forks ++ [(c.id, ix)])
+                (mkArgs st F (argVals st env (P.insOf c.callee) c) (some ix))).1))
+            = evalRT st F ρ f ⟨c.callee, 1, 0⟩
+                (.map (ixs.map fun ix => (ix.keyText, pushFork c.id ix r.1.exp))) := by
+          intro f hf
+          simp only [collect, zip_map_self, erase_obj, evalRT, c1, if_true, Nat.add_sub_cancel, evalRTFields_map,
+            List.map_map, J.obj.injEq]
+          apply List.map_congr_left
+          intro ix hix
+          obtain ⟨s, rfl⟩ := hallK ix hix
+          simp only [Function.comp_apply, Prod.mk.injEq, true_and]
+          rw [(pushFork_evalRT st hst F ρ hρ c.id (.k s) true trivial r.1.exp _ f (hchild _ hix).2.1 hnmg).1]
+          exact (hchild _ hix).1 _ (hf.fset c.id (.k s) habove)
+        have htyR : HasTyR st ⟨c.callee, 1, 0⟩
+            (.map (ixs.map fun ix => (ix.keyText, pushFork c.id ix r.1.exp))) := by
+          simp only [HasTyR]
+          refine Or.inl ⟨trivial, by simp, HasTyRFields_map st _ _ _ _ ?_⟩
+          intro ix hix
+          obtain ⟨s, rfl⟩ := hallK ix hix
+          exact (pushFork_evalRT st hst F ρ hρ c.id (.k s) true trivial r.1.exp _ [] (hchild _ hix).2.1 hnmg).2
+        have hrel' := envRel_stepC st F ρ (Agree forks) (eraseEnv env) self sib hrel c.id ⟨c.callee, 1, 0⟩ _
+          ⟨.map (ixs.map fun ix => (ix.keyText, pushFork c.id ix r.1.exp)), ⟨c.callee, 1, 0⟩⟩ hv htyR
+        rw [← eraseEnv_append] at hrel'
+        have hty : callTyS st sT (callTyOfB (typesOf env)) c = ⟨c.callee, 1, 0⟩ := by
+          rw [← hsT, callTyS_env, hmode]; rfl
+        have hinst : ∀ f, Agree forks f → (ixs.flatMap fun ix =>
+              (run c.callee (path ++ [c.id]) (forks ++ [(c.id, ix)])
+                (mkArgs st F (argVals st env (P.insOf c.callee) c) (some ix))).2).map eraseInst
+            = instsTList st F ρ forks f [STree.sub c.id true ixs
+                (ci.isSome && !ixs.isEmpty && splitsStaticT st self sib (P.insOf c.callee) c (true, ixs) &&
+                  c.disabled.isNone && pushOk c.id true r.1.exp) r.2] := by
+          intro f hf
+          simp only [instsTList, instsT, List.append_nil, List.map_flatMap]
+          apply flatMap_congr_mem
+          intro ix hix
+          exact (hchild ix hix).2.2 _ (hf.fset c.id ix habove)
+        simp only [liftTy]
+        have := ih _ _ (acc ++ (ixs.flatMap fun ix =>
+              (run c.callee (path ++ [c.id]) (forks ++ [(c.id, ix)])
+                (mkArgs st F (argVals st env (P.insOf c.callee) c) (some ix))).2))
+          (sacc ++ [STree.sub c.id true ixs
+                (ci.isSome && !ixs.isEmpty && splitsStaticT st self sib (P.insOf c.callee) c (true, ixs) &&
+                  c.disabled.isNone && pushOk c.id true r.1.exp) r.2])
+          hrel' hsT (by rw [← hty]; simpa [typesOf] using hcs)
+          (by have := tyRelL_step htr c.id ⟨c.callee, 1, 0⟩
+                ⟨.map (ixs.map fun ix => (ix.keyText, pushFork c.id ix r.1.exp)), ⟨c.callee, 1, 0⟩⟩ rfl
+              simpa [typesOf] using this)
+          (fun f hf => by rw [List.map_append, hacc f hf, hinst f hf, instsTList_append]) f0 hf0
+          (by rw [hixsP, hout] at hT2; exact hT2)
+        obtain ⟨r1, r2, r3, r4⟩ := this
+        refine ⟨r1, r2, ?_, r4⟩
+        rw [r3]
+        simp only [callTypesS, hty]
+        simp [typesOf]
 
 end callsR
 
 /-! ## the call graph -/
 
+theorem staticCallableT_ty (P : Program) (nm : List String → String) :
+    ∀ (fuel : Nat) (callee : String) (path : List String) (ins : RBMap),
+      (staticCallableT P nm fuel callee path ins).1.ty = ⟨callee, 0, 0⟩
+  | 0, _, _, _ => rfl
+  | fuel+1, callee, path, ins => by
+    simp only [staticCallableT]
+    cases P.callables.lookup callee with
+    | none => rfl
+    | some cb => cases cb <;> rfl
+
 section graphR
-variable (P : Program) (hw : WellTypedE P) (F : Nat) (hF : NarrowFix P.table F)
+variable (P : Program) (hw : WellTypedR P) (F : Nat) (hF : NarrowFix P.table F)
   (nm : List String → String) (O : Oracle) (hO : OracleClean O) (ρ : Store) (hρ : StoreExt ρ)
 include hw hF hO hρ
 
@@ -826,9 +1495,17 @@ theorem refine_callableR :
         have hn := hw.structs _ _ htab
         have hinit := envRel_initC P.table F ρ forks pins (J.erase args) cins hargs
         have hinit' : EnvRel P.table F ρ (Agree forks) (eraseEnv ⟨pins, args, []⟩) cins [] := hinit
+        have htr0 : TyRelL (selfTyOf pins) (typesOf ⟨pins, args, []⟩) cins [] := by
+          obtain ⟨g, hc, _, _⟩ := hargs
+          refine ⟨?_, fun _ => rfl, fun _ => rfl⟩
+          intro p
+          rw [hc, lookup_map_find]
+          simp only [selfTyOf]
+          cases pins.find? (fun q => q.name == p) <;> rfl
         have hcs := refine_callsR P.table hw.structs F hF ρ hρ P nm O (runCallable P O F fuel)
-          (staticCallableT P nm fuel) path forks dims cins (selfTyOf pins) hal ih
-          calls ⟨pins, args, []⟩ [] [] [] hinit' rfl (by simpa [typesOf] using hcalls)
+          (staticCallableT P nm fuel) path forks dims cins (selfTyOf pins) hal
+          (fun callee path cins => staticCallableT_ty P nm fuel callee path cins) ih
+          calls ⟨pins, args, []⟩ [] [] [] hinit' rfl (by simpa [typesOf] using hcalls) htr0
           (fun _ _ => by simp [instsTList]) f0 hf0 hT
         obtain ⟨hrel, hself, htypes, hinst⟩ := hcs
         simp only
@@ -837,7 +1514,7 @@ theorem refine_callableR :
         generalize staticCallsT P.table P.insOf (staticCallableT P nm fuel) path cins calls [] [] = S
           at hrel hinst
         have hsT : (eraseEnv R.1).selfTy = selfTyOf pins := by rw [selfTy_eraseEnv, selfTy_eq, hself]
-        have hcT : (eraseEnv R.1).callTy = callTyOf (callTypesM calls) := by
+        have hcT : (eraseEnv R.1).callTy = callTyOf (callTypesS P.table (selfTyOf pins) [] calls) := by
           rw [callTy_eraseEnv, callTy_typesOf, htypes]; simp [typesOf]
         have key : ∀ p ∈ outs,
             (∀ f, Agree forks f → narrow P.table F p.ty (J.erase (match ret.lookup p.name with
@@ -854,7 +1531,7 @@ theorem refine_callableR :
           | none => exact ⟨fun f _ => by simp [narrow_null hF, evalRT, J.erase], HasTyR_null _ _⟩
           | some e =>
             obtain ⟨hcl, hty⟩ := hret p hp e he
-            rw [← hsT, ← hcT] at hty
+            rw [← hcT] at hty; rw [← hsT] at hty
             simp only
             rw [← eval_eraseEnv P.table R.1 e hcl]
             exact ⟨fun f hf => (eval_resolveExpT P.table hw.structs F hF ρ _ _ cins S.1 hrel f hf e p.ty hty).1,
